@@ -7,7 +7,12 @@
 Writes seeded/<Cxx>-<N>/{patch.diff, demo.rs, meta.json} for confirmed changes."""
 import json, os, re, shutil, subprocess, sys, time
 VERIF = os.path.dirname(os.path.dirname(os.path.abspath(__file__)))
-INC = os.path.join(VERIF, 'seeded', '_incoming')
+# SEED_ROUND=2: seeded/_incoming2, ids Cxx-3 / Cxx-4, summary in validation_summary2.json; SEED_DEST: where confirmed
+# seeds and the summary are written (default: this /verif; a snapshot run passes the real /verif)
+ROUND = int(os.environ.get('SEED_ROUND', '1'))
+DEST = os.environ.get('SEED_DEST', VERIF)
+INC = os.path.join(DEST, 'seeded', '_incoming' if ROUND == 1 else '_incoming%d' % ROUND)
+OFFSET = 2 * (ROUND - 1)
 WT = '/tmp/seedval-wt'
 TGT = '/tmp/seedval-target'
 OUT = '/tmp/seedval-out'
@@ -23,7 +28,7 @@ def main():
     seeds = []
     for d in sorted(os.listdir(INC)):
         for n in (1, 2):
-            if os.path.exists(os.path.join(INC, d, 'change%d.diff' % n)) and (not ids or d in ids or '%s-%d' % (d, n) in ids):
+            if os.path.exists(os.path.join(INC, d, 'change%d.diff' % n)) and (not ids or d in ids or '%s-%d' % (d, n + OFFSET) in ids):
                 seeds.append((d, n))
     if os.path.exists(WT):
         sh('git -C /repo worktree remove --force %s' % WT)
@@ -33,7 +38,7 @@ def main():
     summary = []
     try:
         for d, n in seeds:
-            sid = '%s-%d' % (d, n)
+            sid = '%s-%d' % (d, n + OFFSET)
             t0 = time.time()
             patch = os.path.join(INC, d, 'change%d.diff' % n)
             demo = os.path.join(INC, d, 'demo%d.rs' % n)
@@ -73,7 +78,7 @@ def main():
             summary.append(meta)
             print(sid, 'confirmed' if meta['confirmed'] else 'NOT CONFIRMED', 'suite', passed, failed, 'demo', rc0, rc1, 'caught_by', meta['caught_by'], 'undecided', meta['undecided_in'], flush=True)
             if meta['confirmed']:
-                dst = os.path.join(VERIF, 'seeded', sid)
+                dst = os.path.join(DEST, 'seeded', sid)
                 os.makedirs(dst, exist_ok=True)
                 shutil.copy(patch, os.path.join(dst, 'patch.diff'))
                 shutil.copy(demo, os.path.join(dst, 'demo.rs'))
@@ -85,7 +90,7 @@ def main():
         sh('git -C /repo worktree remove --force %s' % WT)
         shutil.rmtree(TGT, ignore_errors=True)
         shutil.rmtree(OUT, ignore_errors=True)
-    json.dump(summary, open(os.path.join(VERIF, 'seeded', 'validation_summary.json'), 'w'), indent=1)
+    json.dump(summary, open(os.path.join(DEST, 'seeded', 'validation_summary.json' if ROUND == 1 else 'validation_summary%d.json' % ROUND), 'w'), indent=1)
 
 if __name__ == '__main__':
     main()
